@@ -1698,7 +1698,20 @@ func (z *Decimal) SetBitsExp(mant []Word, exp int64) *Decimal {
 	z.mant = dec(mant).norm()
 	z.neg = false
 	if len(z.mant) > 0 {
-		z.setExpAndRound(exp-dnorm(z.mant)-int64(len(mant)-len(z.mant))*_DW, 0)
+		if z.prec == 0 {
+			// like the other setters: enough precision for the whole mantissa
+			digits := int64(len(z.mant)) * _DW
+			if digits > MaxPrec {
+				digits = MaxPrec
+			}
+			z.prec = umax32(uint32(digits), DefaultDecimalPrec)
+		}
+		adj := dnorm(z.mant) + int64(len(mant)-len(z.mant))*_DW
+		if exp < math.MinInt64+adj {
+			// exp-adj would wrap around; the result underflows either way
+			exp = math.MinInt64 + adj
+		}
+		z.setExpAndRound(exp-adj, 0)
 	} else {
 		z.acc = Exact
 		z.form = zero
